@@ -220,6 +220,12 @@ class AsyncSocks5Connection(AsyncConnectionInterface):
         timeout = timeouts.get("connect", None)
 
         async with self._connect_lock:
+            if self._connection is None and self._connect_failed:
+                # Another request failed to establish this connection
+                # while we were waiting for the lock, and the pool has
+                # dropped it. Nothing has been sent for this request.
+                raise ConnectionNotAvailable()
+
             if self._connection is None:
                 stream: AsyncNetworkStream | None = None
                 try:
